@@ -302,6 +302,8 @@ func (st Style) fromText(f Node, full Style) string {
 		as = " " + st.ident(a)
 	}
 	switch f["k"] {
+	case "dual":
+		return "dual"
 	case "table":
 		return st.path(st.rooted(strs(f["p"]))) + as
 	case "sel":
